@@ -18,6 +18,9 @@ def windowFair (ps : List Int) (picks : List Int) : Bool :=
   ps.length != 0 && picks.length % ps.length == 0 &&
     (ps ++ picks).all (fun p => picks.count p == (picks.length / ps.length) * ps.count p)
 
+/-- Every selection is a member of the list supplied with it. -/
+def member (ps : List Int) (x : Int) : Bool := ps.contains x
+
 def ascending : List Int → Bool
   | a :: b :: rest => decide (a ≤ b) && ascending (b :: rest)
   | _ => true
